@@ -65,9 +65,24 @@ def run(ctx):
             post = joker.rejection_sample(pb.data, pb.lib, in_memory=True, max_posterior_samples=9)
             if not many:
                 post = post[int(rng.integers(0, len(post)))]
+            units_before = {k: str(v) for k, v in pb.prior.par_units.items()}
             with pb.prior.model:
                 init = joker.setup_mcmc(pb.data, post)
             m = pb.prior.model
+            units_after = {k: str(v) for k, v in pb.prior.par_units.items()}
+            ctx.evaluations += 1
+            if units_after != units_before:
+                ctx.violation("setup_mcmc-changes-prior-units", "setup_mcmc relabelled the prior's variables: %s -> %s"
+                              % ({k: units_before[k] for k in units_before if units_before[k] != units_after.get(k)},
+                                 {k: units_after.get(k) for k in units_before if units_before[k] != units_after.get(k)}), desc)
+            # a second call on the same prior/model (e.g. with another starting sample) must give a consistent initial point
+            with pb.prior.model:
+                init2 = joker.setup_mcmc(pb.data, post)
+            for nm_ in init:
+                if nm_ in init2 and not np.allclose(np.squeeze(init[nm_]), np.squeeze(init2[nm_]), rtol=1e-12, atol=0):
+                    ctx.violation("mcmc-init-not-repeatable", "a second setup_mcmc call returns %s=%r, the first %r"
+                                  % (nm_, float(np.squeeze(init2[nm_])), float(np.squeeze(init[nm_]))), dict(desc, parameter=nm_))
+                    break
             # ---------------- mcmc_init
             if len(post) > 1:
                 Pp = np.asarray(post["P"].to_value(u.day))
